@@ -221,7 +221,9 @@ func (tds *Conn) ReadFrom() {
 		packet := &Packet{}
 		_, err := packet.ReadFrom(tds.ctx, tds.conn, time.Duration(tds.info.PacketReadTimeout)*time.Second)
 		if err != nil && !errors.Is(err, io.EOF) {
-			tds.errCh <- fmt.Errorf("error reading packet: %w", err)
+			if !tds.queueError(fmt.Errorf("error reading packet: %w", err)) {
+				return
+			}
 			continue
 		}
 
@@ -229,7 +231,9 @@ func (tds *Conn) ReadFrom() {
 		tdsChan, ok := tds.tdsChannels[int(packet.Header.Channel)]
 		tds.tdsChannelsLock.RUnlock()
 		if !ok {
-			tds.errCh <- fmt.Errorf("received packet for invalid channel %d", packet.Header.Channel)
+			if !tds.queueError(fmt.Errorf("received packet for invalid channel %d", packet.Header.Channel)) {
+				return
+			}
 			continue
 		}
 
@@ -243,6 +247,18 @@ func (tds *Conn) ReadFrom() {
 		if errors.Is(err, io.EOF) && packet.Header.MsgType == TDS_BUF_CLOSE {
 			return
 		}
+	}
+}
+
+// queueError queues an error for the consumers of the connection.
+// It returns false if the connection was closed before the error could
+// be queued.
+func (tds *Conn) queueError(err error) bool {
+	select {
+	case tds.errCh <- err:
+		return true
+	case <-tds.ctx.Done():
+		return false
 	}
 }
 
